@@ -1660,6 +1660,16 @@ func (n *RootNode) Render(w io.Writer, ctx *RenderContext) error {
 	}
 	ctx.addBlockDefs(n.children)
 
+	// A macro can be called above the place where it is written (its definition is part
+	// of the template, not a statement that has to run first)
+	for _, child := range n.children {
+		if macro, ok := child.(*MacroNode); ok {
+			if err := macro.Render(io.Discard, ctx); err != nil {
+				return err
+			}
+		}
+	}
+
 	// If this template extends another, handle that first
 	if extendsNode != nil {
 		// What a child template writes outside its blocks produces no output, but its
@@ -1667,7 +1677,7 @@ func (n *RootNode) Render(w io.Writer, ctx *RenderContext) error {
 		// renders, so that the child's blocks can use them
 		for _, child := range n.children {
 			switch child.(type) {
-			case *SetNode, *ImportNode, *FromImportNode, *MacroNode:
+			case *SetNode, *ImportNode, *FromImportNode:
 				if err := child.Render(io.Discard, ctx); err != nil {
 					return err
 				}
@@ -1684,16 +1694,6 @@ func (n *RootNode) Render(w io.Writer, ctx *RenderContext) error {
 		// Let the extends node handle the rendering, passing along
 		// all our blocks so they're available to the parent template
 		return extendsNode.Render(w, ctx)
-	}
-
-	// A macro can be called above the place where it is written (its definition is part
-	// of the template, not a statement that has to run first)
-	for _, child := range n.children {
-		if macro, ok := child.(*MacroNode); ok {
-			if err := macro.Render(io.Discard, ctx); err != nil {
-				return err
-			}
-		}
 	}
 
 	// For a regular template (not extending another), render all nodes
